@@ -96,9 +96,9 @@ def model_check(ev, vd, tier, work):
         runs.append(("property-conforming, csum v3 + async, 2 damages", mc_constants(Async=1, MaxDmg=2), ["ReplayExact", "PassesAgree"], None, None))
         runs.append(("literal, csum v3 + async, 2 damages", mc_constants(Async=1, MaxDmg=2, **lit), ["ReplayExactOrDev", "PassesAgree"], None, None))
         runs.append(("literal, csum v2", mc_constants(Csum=2, MaxTags=2, **lit), ["ReplayExactOrDev", "PassesAgree"], None, None))
-        for cs in (1, 3):
-            runs.append(("two lives of the log, L=4, 1 block, 1 damage, csum %d (property-conforming)" % cs, gen_constants(L=4, Csum=cs, **two), G, None, None))
-        runs.append(("two lives of the log, L=5, 1 block, partial writes, csum v3 + async (literal)", gen_constants(L=5, MaxDmg=0, Async=1, **dict(two, **lit)),
+        runs.append(("two lives of the log, L=4, 1 block, 1 damage, csum v3 (property-conforming)", gen_constants(L=4, **two), G, None, None))
+        runs.append(("two lives of the log, L=5, 1 block, partial writes, csum v1 (property-conforming)", gen_constants(L=5, Csum=1, MaxDmg=0, **two), G, None, None))
+        runs.append(("two lives of the log, L=4, 1 block, 1 damage, csum v3 + async (literal)", gen_constants(L=4, Async=1, **dict(two, **lit)),
                      ["ReplayExactOrDev", "PassesAgree", "GTypeOK"], None, None))
         # beyond the exhaustive bound: simulation
         runs.append(("simulation L=8, 3 txns, 3 blocks, csum v3 + async, escapes, old times (property-conforming)",
